@@ -247,7 +247,7 @@ func genC24(g *gen) {
 		g.note("%s", n)
 	}
 	g.line("Open Scope string_scope.")
-	g.line("Definition gen_exempt_paths : list string := %s.", coqStrList(exempt))
+	g.line("Definition gen_exempt_paths : list string := %s.", coqStrListHttpcfg(exempt))
 	g.line("Definition gen_exempt_recognised : bool := %s.", coqBool(exemptOK))
 	items := make([]string, len(regs))
 	for i, r := range regs {
